@@ -92,7 +92,7 @@ def replay_one(col, bs, root, seed, bi):
                 fh.write(' '.join(cols) + '\n')
         out = os.path.join(d, 'out.fitinfo')
         with fw.quiet():
-            fit(data, ['b0', 'b1', 'b2'], np.array([1.0, 1.0, 1.0]) * u.arcsec, d, out, n_data_min=3, extinction_law=law,
+            fit(data, ['b0', 'b1', 'b2'], np.array([1.0, 10.0, 0.1] if mode == 'dist' else [1.0, 1.0, 1.0]) * u.arcsec, d, out, n_data_min=3, extinction_law=law,
                 av_range=(0.0, 10.0), distance_range=np.array([1.0, 100.0]) * u.kpc, output_format=('N', nmod), output_convolved=bool(bi % 2))
             txt = os.path.join(d, 'pars.txt')
             write_parameters(out, txt, select_format=('N', 1))
